@@ -20,6 +20,9 @@ import Operon.Gen.MetabolismConsts
                                                          never part of an operation's outcome: nothing changes in the model)
     label <hex code points>                          -> ok     (the `operation` text of the following consume calls: not modelled)
     fcheck cur cap debt                              -> the float classifier's verdict (self-check of the Float tie)
+    race k <call A> / <call B>                       -> <ret A> <ret B> | <every store>   (calls: consume/regen/transfer/convert/
+                                                         dorm/wake/interest/rst lines; B runs to completion just before A's
+                                                         k-th lock acquisition; see `raceLine`)
 
     <store> = atp gtp nadh debt consumed regenerated ops failed ntx state maxAtp maxGtp maxNadh
     every op line ends with ` | cb [id:state,…]`: the observer calls made during the call, in order -/
@@ -32,12 +35,36 @@ def constF (c : Option (Nat × Nat)) : Float :=
   | some (n, d) => Float.ofNat n / Float.ofNat d
   | none => 0.0 / 0.0      -- unrecognised constant: NaN, every comparison false
 
+/-- Python's `a / b` on non-negative ints of ANY size (`long_true_divide`): the double nearest to the exact quotient, ties
+    to even - computed exactly: 55-57 leading bits of the quotient plus a sticky remainder, rounded once to 53 bits, then
+    scaled by a power of two.  Beyond the double range (where the bare `/` raises OverflowError) the source's quotient
+    helper saturates at the largest double; so does this.  For operands below 2^53 this is IEEE division of two exact
+    doubles, i.e. the same value as `Float.ofNat a / Float.ofNat b`. -/
+def pyTrueDiv (a b : Nat) : Float :=
+  if b = 0 then 0.0 / 0.0
+  else if a = 0 then 0.0
+  else
+    let s : Int := 56 - ((a.log2 : Int) - (b.log2 : Int))
+    let num : Nat := if s ≥ 0 then a <<< s.toNat else a
+    let den : Nat := if s ≥ 0 then b else b <<< (-s).toNat
+    let q := num / den
+    let sticky : Bool := num % den != 0
+    let drop : Nat := (q.log2 + 1) - 53
+    let m := q >>> drop
+    let low := q % (2 ^ drop)
+    let half := 2 ^ (drop - 1)
+    let up : Bool := low > half || (low == half && (sticky || m % 2 == 1))
+    let m := if up then m + 1 else m
+    let r := (Float.ofNat m).scaleB ((drop : Int) - s)
+    if r.isInf then (Float.ofNat (2 ^ 53 - 1)).scaleB 971 else r
+
 /-- The IEEE-double computation of `_update_state` (Lean `Float` = C double = Python float for `/`, `*`, `-`
     and comparisons).  The comparison chain, its threshold values and the debt weight are the ones extracted
     from the source on this run (`Operon.Gen.Metabolism`, values obtained by evaluation); the harness
     cross-checks the whole function on a boundary grid at start-up through `fcheck`. -/
 def floatCls : Classifier := fun r p =>
-  let q (x : Quo) : Float := Float.ofInt x.num / Float.ofInt x.den
+  let q (x : Quo) : Float := if x.num < 0 ∨ x.den < 0 then Float.ofInt x.num / Float.ofInt x.den
+                             else pyTrueDiv x.num.toNat x.den.toNat
   let ratio : Float := match r with | none => 0.0 | some x => q x
   let ratio : Float := match p with | none => ratio | some x => ratio - (q x) * constF Gen.Metabolism.debtWeight
   let rec go : List (String × (Nat × Nat) × String) → String
@@ -173,6 +200,54 @@ def opStores : Op → List Nat
   | .consume i .. | .regenerate i .. | .convert i _ | .dorm i | .wake i | .interest i | .reset i => [i]
   | .transfer i j .. => [i, j]
 
+/-- one call on the colony with the installed observer scripts: new driver state (stores, script call counters), what the
+    caller sees, the observer calls made -/
+def applyOp (d : DSt) (op : Op) : DSt × Ret × List (Nat × MState) :=
+  let obs := d.obs
+  let r := step floatCls obs d.sys op
+  -- only an installed observer is called (`if self.on_state_change:`)
+  let calls := (observerCalls floatCls obs d.sys op).filter fun c =>
+    match d.scripts[c.1]? with | some (.none, _) => false | some _ => true | Option.none => false
+  let scripts := calls.foldl (fun acc c => match acc[c.1]? with
+    | some (sc, n) => acc.set c.1 (sc, n + 1) | Option.none => acc) d.scripts
+  ({ d with sys := r.1, scripts := scripts }, r.2, calls)
+
+/-- `race k <call A> / <call B>`: call A is preempted just before its k-th acquisition of a store lock and call B runs to
+    completion there (B simply wins the race for the lock); if A never makes a k-th acquisition B runs after A.  Every call
+    of the store takes its lock once around everything it does, `transfer_to` twice (own lock around check + deduction,
+    then the peer's lock inside `other.regenerate`, skipped when the check fails) - so on the code as modelled this is a
+    sequential history: k = 1: B, A;  k = 2 and A a transfer: withdraw, B, deposit;  otherwise: A, B.
+    Answer: `<ret A> <ret B> | <every store of the colony>`. -/
+def raceLine (d : DSt) (k : Nat) (a b : Op) : DSt × String :=
+  let n := d.sys.length
+  if ((opStores a) ++ (opStores b)).any (fun i => i ≥ n) then (d, "no-such-store") else
+  let fin (d' : DSt) (ra rb : Ret) : DSt × String :=
+    (d', joinSp ([showRet ra, showRet rb] ++ d'.sys.flatMap (fun s => ["|", showStore s])) ++ " ## race")
+  if k = 1 then
+    let (d1, rb, _) := applyOp d b
+    let (d2, ra, _) := applyOp d1 a
+    fin d2 ra rb
+  else
+    match a with
+    | .transfer i j amt cur =>
+      match d.sys[i]? with
+      | some s =>
+        let w := withdraw s amt cur
+        if w.2 && k = 2 then
+          let d0 : DSt := { d with sys := d.sys.set i w.1 }
+          let (d1, rb, _) := applyOp d0 b
+          let (d2, rdep, _) := applyOp d1 (.regenerate j amt cur)
+          fin d2 (match rdep with | .raised e => .raised e | _ => .bool true) rb
+        else
+          let (d1, ra, _) := applyOp d a
+          let (d2, rb, _) := applyOp d1 b
+          fin d2 ra rb
+      | Option.none => (d, "no-such-store")
+    | _ =>
+      let (d1, ra, _) := applyOp d a
+      let (d2, rb, _) := applyOp d1 b
+      fin d2 ra rb
+
 def stepLine (d : DSt) (toks : List String) : DSt × String :=
   let sys := d.sys
   match toks with
@@ -213,6 +288,14 @@ def stepLine (d : DSt) (toks : List String) : DSt × String :=
       !x.isEmpty && x.all (fun c => ('0' ≤ c && c ≤ '9') || ('a' ≤ c && c ≤ 'f')) &&
         x.foldl (fun acc c => acc * 16 + hexVal c) 0 < 0x110000
     if h = "-" || (h.splitOn ".").all okTok then (d, "ok") else (d, "bad-op")
+  | "race" :: k :: rest =>
+    let parts := (String.intercalate " " rest).splitOn " / "
+    match nat? k, parts with
+    | some k, [ta, tb] =>
+      match parseOp (ta.splitOn " "), parseOp (tb.splitOn " ") with
+      | some a, some b => if k = 0 then (d, "bad-op") else raceLine d k a b
+      | _, _ => (d, "bad-op")
+    | _, _ => (d, "bad-op")
   | ["fcheck", cur, cap, debt] =>
     let cap' : Int := natD cap
     let r : Option Quo := if cap' = 0 then none else some ⟨natD cur, cap'⟩
@@ -231,19 +314,13 @@ def stepLine (d : DSt) (toks : List String) : DSt × String :=
     | some Option.none =>
       (d, joinSp ["none", "|", showAt sys (natD (toks.getD 1 "0")), "|", "cb", "[]"] ++ " ## tick:noloop")
     | some (some op) =>
-      let obs := d.obs
-      let r := step floatCls obs sys op
-      -- only an installed observer is called (`if self.on_state_change:`)
-      let calls := (observerCalls floatCls obs sys op).filter fun c =>
-        match d.scripts[c.1]? with | some (.none, _) => false | some _ => true | Option.none => false
-      let scripts := calls.foldl (fun acc c => match acc[c.1]? with
-        | some (sc, n) => acc.set c.1 (sc, n + 1) | Option.none => acc) d.scripts
-      let shown := (opStores op).map (showAt r.1)
+      let (d', ret, calls) := applyOp d op
+      let shown := (opStores op).map (showAt d'.sys)
       let cb := showList (calls.map fun c => s!"{c.1}:{showState c.2}")
-      ({ d with sys := r.1, scripts := scripts },
-        joinSp ([showRet r.2] ++ shown.flatMap (fun s => ["|", s]) ++ ["|", "cb", cb]) ++ " ## " ++ tagsOf sys op r.2
+      (d',
+        joinSp ([showRet ret] ++ shown.flatMap (fun s => ["|", s]) ++ ["|", "cb", cb]) ++ " ## " ++ tagsOf sys op ret
           ++ (match toks with | "tick" :: _ => " tick:pass" | _ => "")
           ++ (if calls.isEmpty then "" else " cb:called")
-          ++ (match r.2 with | .raised (.observer _) => " cb:raised" | _ => ""))
+          ++ (match ret with | .raised (.observer _) => " cb:raised" | _ => ""))
 
 def main : IO Unit := runDriver ({} : DSt) stepLine
